@@ -1069,6 +1069,9 @@ class AsyncWriter(threading.Thread, IndexWriter):
     def delete_by_term(self, *args, **kwargs):
         self._record("delete_by_term", args, kwargs)
 
+    def delete_by_query(self, *args, **kwargs):
+        self._record("delete_by_query", args, kwargs)
+
     def commit(self, *args, **kwargs):
         if self.writer:
             self.writer.commit(*args, **kwargs)
